@@ -343,7 +343,7 @@ func scenarioC16(r *Run) {
 	r.NonTriv = true
 
 	// ---- session loss, then new local connections
-	loss := []string{"none", "carrier-reset", "silent-loss", "server-restart"}[c.Pick(4, "session-loss")]
+	loss := []string{"none", "carrier-reset", "silent-loss", "server-restart", "carrier-timeout"}[c.Pick(5, "session-loss")]
 	sel := entries[firstOK]
 	if sel.Kind == "udp" && loss != "none" {
 		loss = "server-restart"
@@ -359,11 +359,16 @@ func scenarioC16(r *Run) {
 	r.RunFor(5 * time.Second)
 	before := dials(sel)
 	switch loss {
-	case "carrier-reset":
+	case "carrier-reset", "carrier-timeout":
 		for _, cn := range r.Net.Conns() {
 			if cn.Tag == "dial" && cn.Key == sel.Key {
-				r.Net.Reset(cn)
-				r.Count("fault_carrier_reset")
+				if loss == "carrier-timeout" {
+					r.Net.TimeoutKill(cn)
+					r.Count("fault_carrier_timeout")
+				} else {
+					r.Net.Reset(cn)
+					r.Count("fault_carrier_reset")
+				}
 			}
 		}
 		r.RunFor(time.Duration(1+c.Pick(20, "wait-s")) * time.Second)
